@@ -215,9 +215,6 @@ package bpmn
 //@ type subProcess
 //@   field eventConsumers guarded_by eventConsumersLock
 
-//@ type ProcessSet
-//@   field catchCh nonnil guarded_by cmu
-
 //@ type flowTracker
 //@   field flows nonnil guarded_by lock
 
@@ -878,3 +875,125 @@ package bpmn
 //@     invariant len(sfs) == rk2 && fresh(base(sfs)) && off(sfs) == 0 && base(sfs) > athead(1, alloc)
 //@     invariant forall a int :: 0 <= a && a < rk2 ==> at(sfs, a) == gw.nonDefaultSequenceFlows[m.result[a]]
 //@     invariant preservedSince(1, "elems([]*SequenceFlow)") && preservedSince(1, "elems([]chan IAction)")
+
+// ---------------------------------------------------------------------------------------------------------------
+// process_set.go (C18)
+
+// done is closed by whichever waiter's helper sees the watchers finish first, and by nobody else: every close of it
+// sits in the callback of the set's sync.Once, so that waiting twice (or from several goroutines) cannot close twice.
+//@ type ProcessSet
+//@   field done nonnil closed_once_by doneOnce
+//@   field catchCh nonnil guarded_by cmu
+
+//@ func (*ProcessSet).WaitUntilComplete
+//@   prop C18
+//@   ensures [one-helper-per-wait] count(Spawn, code("(*ProcessSet).WaitUntilComplete$1")) == old(count(Spawn, code("(*ProcessSet).WaitUntilComplete$1"))) + 1
+//@   ensures [true-only-on-the-completion-signal] complete ==> isRecv(ev(evlen - 1)) && evch(ev(evlen - 1)) == ps.done
+//@   ensures [false-only-on-context-expiry] !complete ==> isRecv(ev(evlen - 1)) && evch(ev(evlen - 1)) == ctxdone(ctx)
+//@   ensures [a-waiter-never-closes-or-sends] forall p int :: old(evlen) <= p && p < evlen ==> !isClose(ev(p)) && !isSend(ev(p))
+
+// The helper: waits for every watcher, then closes done (once per set).
+//@ func (*ProcessSet).WaitUntilComplete$1
+//@   prop C18
+//@   ensures [waits-for-all-watchers-first] isWgWait(ev(old(evlen))) && evch(ev(old(evlen))) == mu(ps.wg)
+//@   ensures [at-most-one-close-and-only-of-done] forall p int :: old(evlen) <= p && p < evlen && isClose(ev(p)) ==> evch(ev(p)) == ps.done && p == evlen - 1
+//@   ensures [nothing-else] evlen <= old(evlen) + 2
+
+// StartAll: the message loop is started once; every executable process is started and gets exactly one watcher,
+// counted in the wait group before the watcher exists.
+//@ func (*ProcessSet).StartAll
+//@   prop C18
+//@   ensures [message-loop-started-first] isSpawn(ev(old(evlen))) && evch(ev(old(evlen))) == code("(*ProcessSet).run")
+//@   ensures [one-message-loop] count(Spawn, code("(*ProcessSet).run")) == old(count(Spawn, code("(*ProcessSet).run"))) + 1
+//@   ensures [a-watcher-per-started-process] result == nil ==>
+//@             count(Spawn, code("(*ProcessSet).tracerProcess")) == old(count(Spawn, code("(*ProcessSet).tracerProcess"))) + len(ps.executes)
+//@   ensures [watchers-are-counted] count(WgAdd, mu(ps.wg)) - old(count(WgAdd, mu(ps.wg))) ==
+//@             count(Spawn, code("(*ProcessSet).tracerProcess")) - old(count(Spawn, code("(*ProcessSet).tracerProcess")))
+//@   loop 1 range ps.executes
+//@     invariant count(Spawn, code("(*ProcessSet).run")) == old(count(Spawn, code("(*ProcessSet).run"))) + 1 &&
+//@               isSpawn(ev(old(evlen))) && evch(ev(old(evlen))) == code("(*ProcessSet).run") && evlen > old(evlen)
+//@     invariant count(Spawn, code("(*ProcessSet).tracerProcess")) == old(count(Spawn, code("(*ProcessSet).tracerProcess"))) + rk1
+//@     invariant count(WgAdd, mu(ps.wg)) == old(count(WgAdd, mu(ps.wg))) + rk1
+//@     invariant ps.executes == old(ps.executes)
+
+// The message loop: the cease-process-set trace is sent at most once, only on the completion signal, and ends the
+// loop; a throw message instantiates at most one process, counted before its watcher is started.
+//@ func (*ProcessSet).run
+//@   prop C18
+//@   ensures [at-most-one-cease-trace] count(Trace, CeaseProcessSetTrace) <= old(count(Trace, CeaseProcessSetTrace)) + 1
+//@   ensures [cease-trace-only-on-the-completion-signal-and-last] count(Trace, CeaseProcessSetTrace) == old(count(Trace, CeaseProcessSetTrace)) + 1 ==>
+//@             evlen >= old(evlen) + 2 && isTrace(ev(evlen - 1)) && is(evval(ev(evlen - 1)), CeaseProcessSetTrace) &&
+//@             isRecv(ev(evlen - 2)) && evch(ev(evlen - 2)) == ps.done
+//@   loop 1 for
+//@     invariant count(Trace, CeaseProcessSetTrace) == old(count(Trace, CeaseProcessSetTrace))
+//@     invariant ps.done == old(ps.done) && ps.mch == old(ps.mch)
+//@     iter ensures [at-most-one-instantiation-per-message] count(Spawn, code("(*ProcessSet).tracerProcess")) <= old(count(Spawn, code("(*ProcessSet).tracerProcess"))) + 1
+//@     iter ensures [instantiated-process-is-counted-before-it-is-watched]
+//@             count(WgAdd, mu(ps.wg)) - old(count(WgAdd, mu(ps.wg))) == count(Spawn, code("(*ProcessSet).tracerProcess")) - old(count(Spawn, code("(*ProcessSet).tracerProcess")))
+//@     iter ensures [one-message-taken-per-step] count(Recv, imessage) <= old(count(Recv, imessage)) + 1
+
+// What a member process does while it is created and started is abstracted to opaque events in the log of the
+// process set (assumed: a process holds no reference to the set, so it cannot touch the set's wait group, message
+// channel or completion signal, nor start the set's watchers).
+//@ func (*Process).StartAll
+//@   assumed
+//@   flag emits opaque
+//@   flag allocs
+//@ func (*Process).StartWith
+//@   assumed
+//@   flag emits opaque
+//@   flag allocs
+//@ func NewProcess
+//@   assumed
+//@   flag emits opaque
+//@   flag allocs
+//@ func (*Process).ConsumeEvent
+//@   assumed
+//@   flag emits opaque
+//@   flag allocs
+
+// Looking up the waiting process of a message flow target reads the definitions only.
+//@ func (*ProcessSet).resolveWaitingProcessAndEvent
+//@   prop C18
+//@   flag emits opaque
+//@   ensures [found-means-a-node-of-a-waiting-process] result2 ==> tag(result0) != 0
+//@   ensures ps.done == old(ps.done) && ps.mch == old(ps.mch)
+//@   loop 1 range ps.waitings
+//@     invariant forall p int :: old(evlen) <= p && p < evlen ==> isOpaque(ev(p))
+//@     invariant ps.done == old(ps.done) && ps.mch == old(ps.mch)
+
+// Waking a listening catch event: the canceller returned is the literal below, which closes the listener's channel
+// and forgets it under the lock.
+//@ func (*ProcessSet).triggerCatch
+//@   prop C18
+//@   flag emits none
+//@   ensures [canceller-is-the-closing-literal] result1 ==> fncode(result0) == code("(*ProcessSet).triggerCatch$1")
+//@   ensures [absent-means-no-canceller] !result1 ==> result0 == nil
+//@ func (*ProcessSet).triggerCatch$1
+//@   prop C18
+//@   ensures [closes-the-listener-channel-and-nothing-else] evlen == old(evlen) + 1 && isClose(ev(old(evlen))) && evch(ev(old(evlen))) == ch
+//@   ensures [listener-forgotten] !has(ps.catchCh, id)
+//@   ensures ps.done == old(ps.done) && ps.mch == old(ps.mch)
+
+// A watcher: counted out of the wait group exactly once, whatever ends it; it takes traces of its own process only,
+// forwards one message per throw-event flow trace, and ends on the cease-flow trace of its process.
+//@ func (*ProcessSet).tracerProcess
+//@   prop C18
+//@   ensures [counted-out-exactly-once] count(WgDone, wg) == old(count(WgDone, wg)) + 1
+//@   loop 1 for
+//@     invariant count(WgDone, wg) == old(count(WgDone, wg))
+//@     invariant ps.mch == old(ps.mch) && ps.done == old(ps.done)
+//@     iter ensures [at-most-one-message-per-trace] count(Send, throwMessage) <= old(count(Send, throwMessage)) + 1
+//@     iter ensures [a-listener-is-counted-before-it-is-started]
+//@             count(WgAdd, wg) - old(count(WgAdd, wg)) == count(Spawn, code("(*ProcessSet).tracerProcess$1")) - old(count(Spawn, code("(*ProcessSet).tracerProcess$1")))
+
+// The listener goroutine of a catch event that a message flow may wake: counted out exactly once.
+//@ func (*ProcessSet).tracerProcess$1
+//@   prop C18
+//@   ensures [counted-out-exactly-once-and-last] count(WgDone, wg) == old(count(WgDone, wg)) + 1 && isWgDone(ev(evlen - 1)) && evch(ev(evlen - 1)) == wg
+//@   loop 1 for
+//@     invariant count(WgDone, wg) == old(count(WgDone, wg))
+//@   loop 2 range msg.Node.SignalEventDefinitionField
+//@     invariant count(WgDone, wg) == old(count(WgDone, wg))
+//@   loop 3 range msg.Node.MessageEventDefinitionField
+//@     invariant count(WgDone, wg) == old(count(WgDone, wg))
